@@ -7983,6 +7983,16 @@ out:
     return ret;
 }
 
+/* After a failed load the partially initialised tree sequence must not be
+ * reachable: go back to the uninitialised state that check_state reports. */
+static void
+TreeSequence_discard(TreeSequence *self)
+{
+    tsk_treeseq_free(self->tree_sequence);
+    PyMem_Free(self->tree_sequence);
+    self->tree_sequence = NULL;
+}
+
 static int
 TreeSequence_init(TreeSequence *self, PyObject *args, PyObject *kwds)
 {
@@ -8048,6 +8058,7 @@ TreeSequence_load_tables(TreeSequence *self, PyObject *args, PyObject *kwds)
     err = tsk_treeseq_init(self->tree_sequence, tables->tables, options);
     if (err != 0) {
         handle_library_error(err);
+        TreeSequence_discard(self);
         goto out;
     }
     ret = Py_BuildValue("");
@@ -8122,6 +8133,7 @@ TreeSequence_load(TreeSequence *self, PyObject *args, PyObject *kwds)
     err = tsk_treeseq_loadf(self->tree_sequence, file, options);
     if (err != 0) {
         handle_library_error(err);
+        TreeSequence_discard(self);
         goto out;
     }
     ret = Py_BuildValue("");
